@@ -322,8 +322,11 @@ def replay(path):
     data = bytes.fromhex(case["bytes"]["hex"])
     base = baseline(data)
     p = fk.Pickled.load(data)
+    rc = 0
     for q in case.get("history", ["unparse", "unparse"]):
         r = safe_ask(p, q)
         p = r[2]
-        print(q, "->", repr(r[:2])[:300], "| fresh:", repr(base.get(q))[:300])
-    return 0
+        differs = q != "reparse" and r[:2] != base.get(q)
+        print(q, "->", repr(r[:2])[:300], "| fresh:", repr(base.get(q))[:300], "  <-- DIFFERS" if differs else "")
+        rc = rc or int(differs)
+    return rc
